@@ -228,6 +228,70 @@ def check_numeric(ctx, m, variant, blocks, partitioning="mp"):
                                 break
 
 
+def check_assembly(ctx, spec, isr, m, variant, bi, bj, n):
+    """the derived block (for ALL Hamiltonians and ground-state amplitudes, by the proved Wick model and the proved checker):
+         M_IJ^(n) = sum_{k+a+b+c=n} N(k) ( <I~(a)| H(b) |J~(c)>  -  E(b) <I~(a)|J~(c)> ),   N = 1/<psi|psi> order by order
+    with the intermediate states as the code states them at the operator level (IntermediateStates.intermediate_state),
+    H(0), H(1) from recipes.py and E(b) = <Phi|H1|psi(b-1)> (operator-level RSPT, cf. C02).  Ties the assembly of
+    SecularMatrix.isr_matrix_block (order bookkeeping, ground-state shift, wicks, rules, simplification) to the operator-level
+    definition relative to the code's intermediate states; their orthonormality is C04, their explicit construction the
+    numeric part below."""
+    import recipes as R
+    from adcgen import Expr
+    from adcgen.indices import get_symbols
+    from sympy import S
+    ii = idx_for(bi, "")
+    jj = idx_for(bj, ii)
+    tsym = list(get_symbols(ii + jj))
+    rep = {"kind": "assembly", "request": f"{variant} isr_matrix_block({n}, ({bi},{bj}), ({ii},{jj}))"}
+    code = m.isr_matrix_block(n, f"{bi},{bj}", f"{ii},{jj}")
+    # the code's intermediate states are stated on the unnormalised perturbed ground state: every matrix element carries
+    # the norm series a^2 = 1/<psi|psi> (spec.norm, from the operator-level overlaps of recipes.psi)
+    pieces = []       # (sign, operator expression, order of the energy factor or None, order of the norm factor)
+    for k in range(n + 1):
+        for a in range(n - k + 1):
+            for c in range(n - k - a + 1):
+                b = n - k - a - c
+                bra = isr.intermediate_state(order=a, space=bi, braket="bra", indices=ii)
+                ket = isr.intermediate_state(order=c, space=bj, braket="ket", indices=jj)
+                if bra is S.Zero or ket is S.Zero:
+                    continue
+                if b <= 1:
+                    pieces.append((1, bra * R.hamiltonian("mp", b) * ket, None, k))
+                pieces.append((-1, bra * ket, b, k))
+    ic = X.IdxCtx(registered_zero=True)
+    sins = [(sg, sympy.expand(p), eb, k) for sg, p, eb, k in pieces]
+    for _, s_, _, _ in sins:
+        X._walk_indices(sympy.sympify(s_), ic)
+    X._walk_indices(sympy.sympify(code), ic)
+    for i in tsym:
+        ic.note(i)
+    ic.freeze()
+    free = {ic.conv(i) for i in tsym}
+    expect = []
+    cache = {}
+    for sg, s_, eb, k in sins:
+        if s_ is S.Zero:
+            continue
+        if k >= 1 and not spec.norm(k):
+            continue
+        key = str(s_)
+        if key not in cache:
+            cache[key] = R.vev(ctx, s_, ic)[0]
+        x = R.freshen(spec.sc, cache[key], free=free)
+        if eb is not None:
+            x = R.mul(spec.sc, x, spec.energy(eb))
+        if k >= 1:
+            x = R.mul(spec.sc, x, spec.norm(k))
+        expect += R.scale(x, Fraction(sg))
+    (x_code,), _ = X.export_many([(Expr(code, target_idx=ii + jj), tsym)], ic)
+    ctx.case(("assembly", variant, bi, bj, n), nontrivial=True)
+    ctx.count("assembly_checks")
+    r = ctx.equiv(monic(distribute(x_code)), monic(distribute(expect)), rep["request"])
+    judge(ctx, r, f"{variant} isr_matrix_block({n}, ({bi},{bj})) is not sum <I~(a)|H(b)|J~(c)> - E(b)<I~(a)|J~(c)> over the code's "
+          "operator-level intermediate states (Lean Wick model + proved checker)", dict(rep, code=str(code)[:600]))
+
+
 def run(ctx):
     import os
     from adcgen import Operators, GroundState, IntermediateStates, SecularMatrix
@@ -249,6 +313,22 @@ def run(ctx):
                             check_mvp(ctx, m, variant, bi, bj, order)
                     except X.Unsupported as ex:
                         ctx.skip(f"unsupported {str(ex)[:40]}")
+        if "L" in part and variant in ("pp", "ip", "ea"):
+            from props.c02 import Spec
+            spec = Spec(ctx, "mp", False)
+            isr_ = m.isr
+            mn = MIN[variant]
+            nxt = "p" + mn + "h"
+            jobs_ = [(mn, mn, n_) for n_ in range(3)]
+            if not ctx.quick():
+                jobs_ += [(mn, nxt, 0), (mn, nxt, 1), (nxt, mn, 1)]
+            for b1_, b2_, n_ in jobs_:
+                t0_ = time.time()
+                try:
+                    check_assembly(ctx, spec, isr_, m, variant, b1_, b2_, n_)
+                except X.Unsupported as ex:
+                    ctx.skip(f"unsupported {str(ex)[:40]}")
+                ctx.count("assembly_s", round(time.time() - t0_, 1))
         if "N" in part:
             check_numeric(ctx, m, variant, blocks)
     # the block truncation table
